@@ -1,7 +1,9 @@
 ----------------------------- MODULE CodeCache -----------------------------
 (* C19: cached bytecode never changes what a script does.
 
-   Script store:  `src` is the script (content version, mtime), `entry` its cache file
+   Script store:  the script is run through a symlink `cur` that points at file F1 or at a
+   second file F2 (content version 3, mtime 0, never edited; `entry2` is its cache entry - entries
+   belong to real files, never to the path used).  `src` is F1 (content version, mtime), `entry` its cache file
    ([kind, from, mtime]: kind "ok" | "xver" | "pyver" (foreign header) | "trunc" | "garbage" |
    "none").  `clock` is the logical time (mtimes are set explicitly in the replay).
    Code store (`-c` text and scripts on stdin): `centry[t][mode]` for each code text and
@@ -15,9 +17,9 @@ CONSTANTS MaxClock, Texts, Deviations
 
 DevNames == {"Dev_KeyIgnoresMode", "Dev_CacheIgnoresContext"}
 
-VARIABLES src, entry, clock, sw, centry, contract, act, res
-vars == <<src, entry, clock, sw, centry, contract, act, res>>
-view == <<src, entry, clock, sw, centry, contract>>
+VARIABLES src, entry, clock, sw, centry, contract, link, entry2, act, res
+vars == <<src, entry, clock, sw, centry, contract, link, entry2, act, res>>
+view == <<src, entry, clock, sw, centry, contract, link, entry2>>
 
 Modes == {"exec", "single"}
 NoEntry == [kind |-> "none", from |-> 0, mtime |-> 0]
@@ -33,46 +35,52 @@ UseCodeCache(mode) == IF mode = "exec" THEN UseScriptCache ELSE (sw.cacheall \/ 
 \* ---------------------------- the script and time ----------------------------------------
 Tick == /\ clock < MaxClock /\ clock' = clock + 1
         /\ act' = Lab("tick", 0, 0, 0) /\ res' = NoRes
-        /\ UNCHANGED <<src, entry, sw, centry, contract>>
-\* the script is edited; its mtime becomes the current time
-Edit == /\ src' = [content |-> 3 - src.content, mtime |-> clock]
-        \* the statement's contract: the source gets a *newer* mtime than the entry
-        /\ contract' = (contract /\ (entry.kind = "none" \/ clock > entry.mtime))
-        /\ act' = Lab("edit", 0, 0, 0) /\ res' = NoRes
-        /\ UNCHANGED <<entry, clock, sw, centry>>
-\* content replaced by a file with an *older* timestamp (cp -p, git checkout of an old file)
-EditOlder == /\ src.mtime > 0
-             /\ src' = [content |-> 3 - src.content, mtime |-> src.mtime - 1]
-             /\ contract' = (contract /\ (entry.kind = "none" \/ src.mtime - 1 > entry.mtime))
-             /\ act' = Lab("editolder", 0, 0, 0) /\ res' = NoRes
-             /\ UNCHANGED <<entry, clock, sw, centry>>
+        /\ UNCHANGED <<src, entry, sw, centry, contract, link, entry2>>
+\* the script (file F1) is replaced by a new version whose mtime is m <= now (an edit stamped
+\* "now", or a version prepared earlier and installed with mv / cp -p / rsync keeping its timestamp)
+EditAt(m) == /\ m \in 0..clock
+             /\ src' = [content |-> 3 - src.content, mtime |-> m]
+             \* the statement's contract: the source gets a *newer* mtime than the entry
+             /\ contract' = (contract /\ (entry.kind = "none" \/ m > entry.mtime))
+             /\ act' = Lab("editat", m, 0, 0) /\ res' = NoRes
+             /\ UNCHANGED <<entry, clock, sw, centry, link, entry2>>
 Touch == /\ src' = [src EXCEPT !.mtime = clock]
          /\ act' = Lab("touch", 0, 0, 0) /\ res' = NoRes
-         /\ UNCHANGED <<entry, clock, sw, centry, contract>>
+         /\ UNCHANGED <<entry, clock, sw, centry, contract, link, entry2>>
 \* the cache file is damaged: foreign version header, truncation by a crash, garbage
 Damage(k) == /\ entry.kind = "ok" /\ k \in {"xver", "pyver", "trunc", "garbage"}
              /\ entry' = [entry EXCEPT !.kind = k]
              /\ act' = Lab("damage", k, 0, 0) /\ res' = NoRes
-             /\ UNCHANGED <<src, clock, sw, centry, contract>>
+             /\ UNCHANGED <<src, clock, sw, centry, contract, link, entry2>>
 SetSwitches(s) == /\ s \in Switches /\ s # sw /\ sw' = s
                   /\ act' = Lab("switch", 0, 0, 0) /\ res' = NoRes
-                  /\ UNCHANGED <<src, entry, clock, centry, contract>>
+                  /\ UNCHANGED <<src, entry, clock, centry, contract, link, entry2>>
 
 \* ---------------------------- running ------------------------------------------------------
 EntryUsable == entry.kind = "ok" /\ entry.mtime >= src.mtime
+\* `cur` is re-pointed to the other file
+Relink == /\ link' = IF link = "F1" THEN "F2" ELSE "F1"
+          /\ act' = Lab("relink", 0, 0, 0) /\ res' = NoRes
+          /\ UNCHANGED <<src, entry, clock, sw, centry, contract, entry2>>
 RunScript ==
   /\ act' = Lab("runscript", 0, 0, 0)
-  /\ UNCHANGED <<src, clock, sw, centry>>
-  /\ IF UseScriptCache /\ EntryUsable
-     THEN /\ res' = [NoRes EXCEPT !.ran = entry.from]
+  /\ UNCHANGED <<src, clock, sw, centry, link>>
+  /\ IF link = "F1"
+     THEN /\ UNCHANGED entry2
+          /\ IF UseScriptCache /\ EntryUsable
+             THEN /\ res' = [NoRes EXCEPT !.ran = entry.from]
+                  /\ UNCHANGED <<entry, contract>>
+             ELSE /\ res' = [NoRes EXCEPT !.ran = src.content]
+                  /\ entry' = IF UseScriptCache THEN [kind |-> "ok", from |-> src.content, mtime |-> clock] ELSE entry
+                  /\ contract' = IF UseScriptCache THEN TRUE ELSE contract
+     ELSE \* F2 never changes: cached or not, its own content (3) runs
+          /\ res' = [NoRes EXCEPT !.ran = 3]
+          /\ entry2' = IF UseScriptCache THEN "ok" ELSE entry2
           /\ UNCHANGED <<entry, contract>>
-     ELSE /\ res' = [NoRes EXCEPT !.ran = src.content]
-          /\ entry' = IF UseScriptCache THEN [kind |-> "ok", from |-> src.content, mtime |-> clock] ELSE entry
-          /\ contract' = IF UseScriptCache THEN TRUE ELSE contract
 
 RunCode(t, mode, ctx) ==
   /\ act' = Lab("runcode", t, mode, ctx)
-  /\ UNCHANGED <<src, entry, clock, sw, contract>>
+  /\ UNCHANGED <<src, entry, clock, sw, contract, link, entry2>>
   /\ LET e == centry[t][mode]
          hit == UseCodeCache(mode) /\ e.kind = "ok"
          other == CHOOSE m \in Modes : m # mode
@@ -91,13 +99,15 @@ RunCode(t, mode, ctx) ==
 DamageCode(t, m, k) == /\ centry[t][m].kind = "ok" /\ k \in {"xver", "trunc"}
                        /\ centry' = [centry EXCEPT ![t][m].kind = k]
                        /\ act' = Lab("damagecode", t, k, m) /\ res' = NoRes
-                       /\ UNCHANGED <<src, entry, clock, sw, contract>>
+                       /\ UNCHANGED <<src, entry, clock, sw, contract, link, entry2>>
 
 Init == /\ src = [content |-> 1, mtime |-> 0] /\ entry = NoEntry /\ clock = 0
+        /\ link = "F1" /\ entry2 = "none"
         /\ sw \in Switches /\ centry = [t \in Texts |-> [m \in Modes |-> NoCode]] /\ contract = TRUE
         /\ act = Lab("init", 0, 0, 0) /\ res = NoRes
 
-Next == \/ Tick \/ Edit \/ EditOlder \/ Touch \/ RunScript
+Next == \/ Tick \/ Touch \/ RunScript \/ Relink
+        \/ \E m \in 0..MaxClock : EditAt(m)
         \/ \E k \in {"xver", "pyver", "trunc", "garbage"} : Damage(k)
         \/ \E s \in Switches : SetSwitches(s)
         \/ \E t \in Texts, m \in Modes, c \in BOOLEAN : RunCode(t, m, c)
@@ -106,7 +116,9 @@ Next == \/ Tick \/ Edit \/ EditOlder \/ Touch \/ RunScript
 Spec == Init /\ [][Next]_vars
 
 \* ---------------------------- the property -----------------------------------------------
-IsRun == act'.cmd = "runscript"
+IsRun == act'.cmd = "runscript" /\ link = "F1"
+\* different script files never share an entry: through the link, the target's content runs
+FilesSeparate == [][(act'.cmd = "runscript" /\ link = "F2") => res'.ran = 3]_vars
 \* once the source is newer than the entry, the new source runs
 Fresh == [][(IsRun /\ entry.kind # "none" /\ src.mtime > entry.mtime) => res'.ran = src.content]_vars
 \* damaged or foreign entries are never executed and never fatal
